@@ -69,6 +69,12 @@ def gen_case(rng, i):
                 if names and len(names) > 1 and rng.random() < 0.7:
                     i1, i2 = rng.sample(range(len(names)), 2)
                     names[i2] = names[i1]
+        if has_header and rng.random() < 0.12:
+            # column names as people type them: padded with a space, two words, a trailing tab-free blank (sqlite cannot hold them unquoted: skipped there)
+            for names in (a_names, b_names):
+                if names and rng.random() < 0.8:
+                    j = rng.randrange(len(names))
+                    names[j] = rng.choice([' ' + names[j], names[j] + ' ', ' ' + names[j] + '  ', 'first ' + names[j]])
         g = gq.G(rng, A, a_names, B, b_names)
         if kind == 'update':
             q = g.gen_update({'where'} & feats | ({'join'} if join else set()))
@@ -394,7 +400,7 @@ def run_shard(spec, res):
                         fails['pandas'] = False
                     except Exception:
                         fails['pandas'] = True
-                if rect and fan is not None and len(set(fan)) == len(fan) and (fbn is None or len(set(fbn)) == len(fbn)):
+                if rect and fan is not None and len(set(fan)) == len(fan) and (fbn is None or len(set(fbn)) == len(fbn)) and all(qast.is_identifier(x) for x in list(fan) + list(fbn or [])):
                     fdb = os.path.join(cdf, 'f.sqlite')
                     conn = sqlite3.connect(fdb)
                     conn.execute('CREATE TABLE t (%s)' % ', '.join('%s TEXT' % x for x in fan))
@@ -546,7 +552,7 @@ def run_shard(spec, res):
             cmp('pandas', rows, hdr, err)
 
             # 5. sqlite (always has column names, all distinct)
-            if has_header and len(set(an)) == len(an) and (bn is None or len(set(bn)) == len(bn)):
+            if has_header and len(set(an)) == len(an) and (bn is None or len(set(bn)) == len(bn)) and all(qast.is_identifier(x) for x in list(an) + list(bn or [])):
                 db = os.path.join(d, 'db_%d.sqlite' % n)
                 conn = sqlite3.connect(db)
                 conn.execute('CREATE TABLE t (%s)' % ', '.join('%s TEXT' % x for x in an))
@@ -765,7 +771,7 @@ def options_leg(ns, res, spec, d, rng):
             else:
                 data = p.stdout
             cmp(front, data, dlm, pol)
-        if mode == 'init' and has_header and not case.get('ragged') and len(set(an)) == len(an) and (bn is None or len(set(bn)) == len(bn)):
+        if mode == 'init' and has_header and not case.get('ragged') and len(set(an)) == len(an) and (bn is None or len(set(bn)) == len(bn)) and all(qast.is_identifier(x) for x in list(an) + list(bn or [])):
             db = os.path.join(cd, 'db.sqlite')
             conn = sqlite3.connect(db)
             conn.execute('CREATE TABLE t (%s)' % ', '.join('%s TEXT' % x for x in an))
